@@ -59,6 +59,40 @@ func (t *Timer) Reset(d Duration) bool { return t.t.Reset(int64(d)) }
 func (t *Timer) Stop() bool            { return t.t.Stop() }
 
 func After(d Duration) <-chan Time { return NewTimer(d).C }
+
+// AfterFunc runs f on a goroutine of its own once d of virtual time has passed (unless stopped before).
+func AfterFunc(d Duration, f func()) *Timer {
+	c := vrt.MakeChan[Time](1)
+	t := &Timer{t: vrt.NewTimer(c, int64(d), at)}
+	t.t.OnFire(func() { vrt.Go(f) })
+	return t
+}
+
+// Ticker on the virtual clock; like time.Ticker it drops ticks nobody has received.
+type Ticker struct {
+	C <-chan Time
+	t *vrt.Timer
+	d int64
+}
+
+func NewTicker(d Duration) *Ticker {
+	if d <= 0 {
+		panic("non-positive interval for NewTicker")
+	}
+	c := vrt.MakeChan[Time](1)
+	tk := &Ticker{C: c, d: int64(d)}
+	tk.t = vrt.NewTimer(c, int64(d), at)
+	tk.t.OnFire(func() { tk.t.Rearm(tk.d) })
+	return tk
+}
+
+func (t *Ticker) Stop() { t.t.Stop() }
+func (t *Ticker) Reset(d Duration) {
+	t.d = int64(d)
+	t.t.Reset(int64(d))
+}
+
+func Tick(d Duration) <-chan Time { return NewTicker(d).C }
 func Sleep(d Duration) {
 	if d > 0 {
 		vrt.Recv(After(d))
